@@ -55,6 +55,16 @@ def cases(tier: str, rng: random.Random) -> List[Case]:
                     c = std_case(v, x, rng.choice(["sync", "async"]), tag="c:hostile-scalar")
                     c.proj = "class"
                     out.append(c)
+        # every text of the parse pool against every scalar kind whose default coercer reads text
+        for kind in ("KDecimal", "KUuid", "KDate", "KDatetime"):
+            v = ("Scalar", (kind,), Some((G.DEFAULT_CO[kind],)), [], [], [])
+            for x in G.PARSE_STRS:
+                c = std_case(v, x, "sync" if len(out) % 2 else "async", tag="c:parse-texts")
+                c.proj = "class"
+                out.append(c)
+                c = std_case(("ListV", v, [], [], None), ("VList", [x]), "sync", tag="c:parse-texts")
+                c.proj = "class"
+                out.append(c)
         # every typed predicate of every kind, with and without the default coercer, against the
         # values that resemble the kind's own (subclass instances, other numeric types, parseable text)
         look = [G.TRUE, G.I(1), G.F1, G.D1, G.S("a"), G.S("1.5"), G.B(b"a"), G.DATE1, G.DT1, G.DTA, G.UUID1,
@@ -107,6 +117,10 @@ def cases(tier: str, rng: random.Random) -> List[Case]:
                 out.append(c)
     finally:
         G.WF_ONLY[0] = False
+    # unions of seven and eight variants (ends of the typed constructor's argument list)
+    for v_, x_ in G.wide_union_cases():
+        for m_ in ("sync", "async"):
+            out.append(std_case(v_, x_, m_, tag="a:wide-union"))
     return out
 
 
